@@ -14,17 +14,25 @@ def U(k):
 
 
 # universe entries: (src, tgt, label-key)
-UNIVERSE_Q = [
+_BASE_Q = [
     ("P2", "P2", "L1"), ("K1", "P1", None), ("K1", "P1", "L0"),
     ("K1", "P1", "L1"), ("P1", "K1", None),
 ]
-UNIVERSE_T = UNIVERSE_Q + [
+# P1t is a second ProxyBlock OBJECT carrying the UUID of P1 (unattached):
+# nodes are compared by identity, so K1->P1t is another edge than K1->P1
+_TWIN = [("K1", "P1t", None)]
+# quick: the twin takes the place of the third parallel K1->P1 edge, so that
+# the fix-point stays reachable inside the quick budget
+UNIVERSE_Q = [("P2", "P2", "L1"), ("K1", "P1", None), ("K1", "P1", "L0"),
+              ("P1", "K1", None)] + _TWIN
+UNIVERSE_T = _BASE_Q + [
     ("K1", "K1", None), ("P1", "P2", "L0"), ("K1", "P1", "L2"),
-]
+] + _TWIN
 # pairs used as two-element operands (parallel edges, opposite directions,
 # attached + detached)
-PAIRS_Q = [(1, 2), (1, 3), (2, 3), (1, 4), (0, 1)]
-PAIRS_T = PAIRS_Q + [(2, 7), (3, 7), (5, 6), (4, 6), (0, 5)]
+_PAIRS = [(1, 2), (1, 3), (2, 3), (1, 4), (0, 1)]
+PAIRS_Q = [(1, 2), (1, 3), (1, 4), (0, 1), (2, 4)]
+PAIRS_T = _PAIRS + [(2, 7), (3, 7), (5, 6), (4, 6), (0, 5), (1, 8)]
 
 
 class World:
@@ -64,7 +72,8 @@ class CfgScenario(explore.Scenario):
         k1 = g.CodeBlock(size=1, uuid=U(4), byte_interval=b)
         p1 = g.ProxyBlock(uuid=U(5), module=m)
         p2 = g.ProxyBlock(uuid=U(6))
-        w.nodes = {"K1": k1, "P1": p1, "P2": p2}
+        w.nodes = {"K1": k1, "P1": p1, "P2": p2,
+                   "P1t": g.ProxyBlock(uuid=U(5))}
         w.ir = ir
         w.model = set()
         if init == "loaded3":
@@ -394,7 +403,10 @@ def run(ctx):
 
 
 def replay(doc):
-    sc = CfgScenario(UNIVERSE_T, PAIRS_T)
+    if doc.get("tier", "quick") == "quick":
+        sc = CfgScenario(UNIVERSE_Q, PAIRS_Q)
+    else:
+        sc = CfgScenario(UNIVERSE_T, PAIRS_T)
     w = sc.build(doc["init"])
     for op in doc["history"]:
         sc.apply(w, op)
